@@ -266,6 +266,38 @@ def gen_find_taskids(cls):
             "  | Err e => Err e\n  end.\n")
 
 
+def gen_cleanup_refresh(cls):
+    f = method(cls, "cleanup", [])
+    body = body_src(f)
+    want = ["for dct in (self.rdeps, self.rtasks, self.deptasks, self.tartasks):\n    for kk, ss in list(dct.items()):\n"
+            "        if len(ss) == 0:\n            del dct[kk]"]
+    if body != want:
+        raise Unsupported("Manager.cleanup changed:\n" + "\n".join(body))
+    loop = [x for x in f.body if not is_docstring_or_log(x)][0]
+    ixs = [ix_of(e) for e in loop.iter.elts]
+    out = ("Definition src_cleanup : @M K A :=\n  for_indices [" + "; ".join(ixs) + "] (fun dct =>\n"
+           "  for_items dct (fun kk ss =>\n  if_empty ss (del_key eqb dct kk))).\n\n")
+    f = method(cls, "refresh", [])
+    parts = []
+    for st in [x for x in f.body if not is_docstring_or_log(x)]:
+        u = ast.unparse(st)
+        if isinstance(st, ast.If) and is_self_attr(st.test, "_tree_frozen") and not st.orelse and len(st.body) == 1 \
+                and isinstance(st.body[0], ast.Raise) and ast.unparse(st.body[0].exc.func) == "ValueError":
+            parts.append("raise_if_frozen")
+        elif isinstance(st, ast.Assign) and len(st.targets) == 1 and ix_of(st.targets[0]) and ast.unparse(st.value) == "defaultdict(RefCount)":
+            parts.append(f"reset_index {ix_of(st.targets[0])}")
+        elif u == "for task in self.tasks.values():\n    self.register(task)":
+            parts.append("for_tasks (fun task => src_register task)")
+        elif u == "self.cleanup()":
+            parts.append("src_cleanup")
+        else:
+            fail(st, "Manager.refresh statement form not supported")
+    term = parts[-1]
+    for x in reversed(parts[:-1]):
+        term = f"seq ({x})\n  ({term})"
+    return out + "Definition src_refresh : @M K A :=\n  " + term + ".\n"
+
+
 def gen_find_tasks(cls):
     f = method(cls, "find_tasks", ["start_deps"])
     body = [ast.unparse(x) for x in f.body if not is_docstring_or_log(x)]
@@ -405,6 +437,7 @@ def main():
         parts.append(f"Definition src_unfreeze_tree : @M K A :=\n  {m_block(f.body, {})}.\n")
         parts.append(gen_find_taskids(cls))
         parts.append(gen_find_tasks(cls))
+        parts.append(gen_cleanup_refresh(cls))
         data = gen_data(tasks)
     except (Unsupported, OSError, SyntaxError) as e:
         print("gen_tasks: cannot translate: " + str(e))
